@@ -82,14 +82,16 @@ Record state := mkstate {
   clock : Z;                  (* logical time: strictly larger than every time stamp on disk *)
   par : bool;                 (* config.parallel *)
   allow : bool;               (* config.allow_for_missing_files *)
-  fetched : list nat          (* ghost: resources contacted so far, newest first *)
+  fetched : list nat;         (* ghost: resources contacted so far, newest first *)
+  alive : bool                (* false after the process died: only the directory is left *)
 }.
 
-Definition set_disk s d := mkstate d (entries s) (maxb s) (clock s) (par s) (allow s) (fetched s).
-Definition set_entries s e := mkstate (disk s) e (maxb s) (clock s) (par s) (allow s) (fetched s).
-Definition set_maxb s m := mkstate (disk s) (entries s) m (clock s) (par s) (allow s) (fetched s).
-Definition tick s := mkstate (disk s) (entries s) (maxb s) (clock s + 1) (par s) (allow s) (fetched s).
-Definition log_fetch s r := mkstate (disk s) (entries s) (maxb s) (clock s) (par s) (allow s) (r :: fetched s).
+Definition set_disk s d := mkstate d (entries s) (maxb s) (clock s) (par s) (allow s) (fetched s) (alive s).
+Definition set_entries s e := mkstate (disk s) e (maxb s) (clock s) (par s) (allow s) (fetched s) (alive s).
+Definition set_maxb s m := mkstate (disk s) (entries s) m (clock s) (par s) (allow s) (fetched s) (alive s).
+Definition tick s := mkstate (disk s) (entries s) (maxb s) (clock s + 1) (par s) (allow s) (fetched s) (alive s).
+Definition log_fetch s r := mkstate (disk s) (entries s) (maxb s) (clock s) (par s) (allow s) (r :: fetched s) (alive s).
+Definition set_alive s b := mkstate (disk s) (entries s) (maxb s) (clock s) (par s) (allow s) (fetched s) b.
 
 Definition mem (n : name) (l : list name) : bool := existsb (name_eqb n) l.
 Definition remove_name (n : name) (l : list name) : list name :=
@@ -97,7 +99,7 @@ Definition remove_name (n : name) (l : list name) : list name :=
 Definition add_name (n : name) (l : list name) : list name :=
   if mem n l then l else l ++ [n].
 
-Definition init (max : Z) (p a : bool) : state := mkstate [] [] max 0 p a [].
+Definition init (max : Z) (p a : bool) : state := mkstate [] [] max 0 p a [] true.
 
 (* _size(): bytes of the registered entries that exist on disk *)
 Definition total_size (d : dir) (l : list name) : Z :=
@@ -279,7 +281,7 @@ Definition get (s : state) (l : list req) : state * result :=
   | None => (s, Raised)      (* unreachable under the invariant; state effects not modelled *)
   | Some (s1, ms) =>
       match download s1 ms with
-      | (s2, _, DlCrashed) => (s2, Crashed)
+      | (s2, _, DlCrashed) => (set_alive s2 false, Crashed)
       | (s2, _, DlRaised) => (evict (register_existing s2 ms), Raised)
       | (s2, bs, DlOk) =>
           let '(s3, paths') := register s2 paths ms bs in
@@ -299,19 +301,28 @@ Definition set_time (s : state) (n : name) (t : Z) : state :=
   | None => s
   end.
 
-Definition step (s : state) (o : op) : state * result :=
+(* operations on a live cache object *)
+Definition step_alive (s : state) (o : op) : state * result :=
   match o with
   | Get l => get s l
   | Remove r k => (remove_item s (CName r k), Done)
   | Purge => (set_disk (set_entries s []) (fold_left ddel (entries s) (disk s)), Done)
+  | SetMode p a => (mkstate (disk s) (entries s) (maxb s) (clock s) p a (fetched s) (alive s), Done)
+  | _ => (s, Done)
+  end.
+
+Definition step (s : state) (o : op) : state * result :=
+  match o with
   | Reopen do_evict =>
-      let s1 := set_entries s (cache_names_on_disk (disk s)) in
+      (* a new FileCache on the same directory: adopts every cache-named file; the persisted
+         configuration wins over the constructor arguments *)
+      let s1 := set_alive (set_entries s (cache_names_on_disk (disk s))) true in
       if do_evict then (evict s1, Done)
-      else if cache_size s1 >? maxb s1 then (s1, Raised) else (s1, Done)
+      else if cache_size s1 >? maxb s1 then (set_alive s1 false, Raised) else (s1, Done)
   | Touch n => (tick (set_time s n (clock s)), Done)
   | Age n => (tick (set_time s n (- clock s)), Done)
   | Foreign j c => (tick (set_disk s (dupd (disk s) (FName j) (mkfile (Blob c) (clock s)))), Done)
-  | SetMode p a => (mkstate (disk s) (entries s) (maxb s) (clock s) p a (fetched s), Done)
+  | _ => if alive s then step_alive s o else (s, Raised)      (* no cache object *)
   end.
 
 Definition run (s : state) (ops : list op) : state := fold_left (fun s o => fst (step s o)) ops s.
